@@ -401,7 +401,7 @@ PROPS = {
     "C03": dict(mc=[ATTEST_MC], sim=[ATTEST_SIM, ECON_SIM], static=["attest*.ndjson"],
                 watch=["C03:", "conf:lon", "conf:votes", "conf:lnv"],
                 need={"Claim/ok": 5, "Claim/err": 1, "End/ok": 3}),
-    "C04": dict(mc=[ECON_MC], sim=[ECON_SIM], static=["econ*.ndjson"],
+    "C04": dict(mc=[ECON_MC], sim=[ECON_SIM, ECON2_SIM], static=["econ*.ndjson"],
                 watch=["C04:", "conf:pool", "conf:bat", "conf:st", "conf:cnt"],
                 need={"Send/ok": 5, "Cancel/ok": 1, "ReqBatch/ok": 1, "End/ok": 3}),
     "C10": dict(mc=[ECON_MC], sim=[ECON_SIM], static=["econ*.ndjson"], bulk=["bulk_batch*.ndjson"],
